@@ -661,6 +661,9 @@ next:
 			for _, queries := range p.enclosingAtMedia {
 				if css_ast.MediaQueriesEqual(r.Queries, queries, nil) {
 					mangledRules = append(mangledRules, r.Rules...)
+
+					// The next rule is no longer adjacent to the previous rule
+					prevNonComment = nil
 					continue next
 				}
 			}
